@@ -155,7 +155,11 @@ def build_driver():
     stamp = os.path.join(od, 'stamp')
     if os.path.exists(stamp) and open(stamp).read() == hh and os.path.exists(DRIVER):
         return True, 'cached'
-    ok, lg = coq_make(['theories/Probe.vo', 'theories/Load.vo'])
+    # everything Extract.v imports
+    ex = open(os.path.join(COQ, 'theories', 'Extract.v')).read()
+    mods = re.findall(r'From Aby Require Import ([^.]*)\.', ex)
+    targets = ['gen/Consts.vo' if m == 'Consts' else 'theories/%s.vo' % m for line in mods for m in line.split()]
+    ok, lg = coq_make(targets)
     if not ok:
         return False, lg
     r = sh(['timeout', '600', 'coqc', '-Q', os.path.join(COQ, 'gen'), 'Aby', '-Q', os.path.join(COQ, 'theories'), 'Aby',
